@@ -498,6 +498,29 @@ def witness_table():
           ("non_matching_if_statement_variables", eqn, [[cond("a", "X"), cond("b", "Y")], "C", None], {}, "`if (a == X || b == Y)` (two variables in one condition)"),
           ("non_matching_if_statement_variables", eqn, [[cond("a", "X", "BitwiseAnd"), cond("a", "Y", "BitwiseAnd"), cond("c", "Z", "BitwiseAnd")], "C", None], {}, "`if (a & X || a & Y || c & Z)`"),
           (None, eqn, [[cond("a", "X", "NotEquals")], "C", None], {}, "`if (a != X)`")]
+    # opcode index (stats): a world message must be in the expansion's index under its own name and opcode
+    gdf = "crate::parser::stats::get_data_for"
+    DATA = "crate::parser::stats::Data"
+
+    def data(name, opcode):
+        return ("struct", DATA, {"name": name, "opcode": opcode, "definition": False, "tests": 0, "reason": None})
+
+    def msg(name, opcode):
+        return ("struct", "crate::parser::types::container::Container", {"name": name, "#opcode": opcode})
+    ov_st = {"::ObjectTags::new_with_version": lambda a: ("tags",), "::fulfills_all": lambda a: True, "::get_real_name": lambda a: a[0], "::unimplemented": lambda a: False,
+             "::Container::tests": lambda a: [], "::Container::opcode": lambda a: a[0][2]["#opcode"], "::Container::tags": lambda a: ("tags",), "::Container::file_info": lambda a: None,
+             "Into::into": lambda a: a[0], "::Objects::messages": lambda a: a[0][2]["messages"]}
+    index = [data("CMSG_A", 1), data("CMSG_B", 2), data("SMSG_C", 5)]
+    for mname, mop, want, desc in (
+        ("CMSG_A", 1, None, "message listed in the index under its name and opcode"),
+        ("SMSG_C", 5, None, "last message of the index"),
+        ("CMSG_A", 2, "incorrect_opcode_for_message", "message whose opcode is the one the index gives to another message"),
+        ("CMSG_A", 9, "incorrect_opcode_for_message", "message whose opcode is not in the index at all"),
+        ("CMSG_Z", 2, "opcode_has_incorrect_name", "unknown name on an opcode the index gives to another message"),
+        ("CMSG_Z", 9, "message_not_in_index", "message that is not in the index by name or opcode"),
+    ):
+        objs = ("struct", "crate::parser::types::objects::Objects", {"messages": [msg(mname, mop)], "enums": [], "flags": [], "structs": [], "tests": []})
+        T.append((want, gdf, [("variant", "wow_message_parser::parser::types::version::MajorWorldVersion::Vanilla"), index, objs], ov_st, f"{desc} ({mname} = {mop:#x})"))
     it = _PC + "parsed_tags::ParsedTags::into_tags"
     ov = {"::ObjectTags::from_parsed": lambda args: ("tags-built",), "::into_bool": lambda args: False, "::into_bool_with_default": lambda args: False}
     T += [("object_has_both_versions", it, [_tags(["w1"], ["l1"]), "T", None, False], ov, "object with world and login versions"),
@@ -543,8 +566,8 @@ def check_witnesses(ctx, FB):
             else:
                 msg = f"the ill-formed instance `{desc}` is reported through {got} instead of {want}: the generator stops with another rule's exit status"
             ctx.violate("rule.witness", f"{fnp}|{desc}", f"{fnp.split('::')[-2]}::{fnp.split('::')[-1]}: {msg}", fn["file"], fn["line"])
-    ctx.rule("rule.witness", n, floor=40, note="validation functions interpreted on minimal ill-formed and well-formed instances (duplicate enumerator values in different spellings, duplicate member names "
-             "in every nesting position, enum/flag if-operators, position of the self.size member, one variable per if condition, version tags): the rule's own error function is reached exactly for the ill-formed ones")
+    ctx.rule("rule.witness", n, floor=46, note="validation functions interpreted on minimal ill-formed and well-formed instances (duplicate enumerator values in different spellings, duplicate member names "
+             "in every nesting position, enum/flag if-operators, position of the self.size member, one variable per if condition, opcode index by name and opcode, version tags): the rule's own error function is reached exactly for the ill-formed ones")
 
 
 def run(ctx):
